@@ -10,8 +10,9 @@
 //!   {"ty":"dedent","hex":<bytes of a text>} -> textwrap::dedent as applied by SerializationFormat::from_str, observed
 //!     through a TOML multi-line literal string.
 use l21h::{json, Value};
-use layout21utils::SerializationFormat;
+use layout21utils::{SerdeFile, SerializationFormat};
 use serde::{de::DeserializeOwned, Serialize};
+use std::panic::{catch_unwind, AssertUnwindSafe};
 
 fn decode_floats(v: &Value) -> Value {
     match v {
@@ -37,7 +38,7 @@ fn encode_floats(v: &Value) -> Value {
     }
 }
 
-fn trip<T: Serialize + DeserializeOwned + PartialEq>(v: &T, fmt: SerializationFormat, ext: &str, want_text: bool) -> Value {
+fn trip<T: Serialize + DeserializeOwned + PartialEq + SerdeFile>(v: &T, fmt: SerializationFormat, ext: &str, want_text: bool) -> Value {
     let orig = encode_floats(&serde_json::to_value(v).unwrap());
     // string helpers
     let text = match fmt.to_string(v) {
@@ -72,15 +73,103 @@ fn trip<T: Serialize + DeserializeOwned + PartialEq>(v: &T, fmt: SerializationFo
         }
     }
     let _ = std::fs::remove_file(&path);
-    let ok = str_eq && str_bits && file_eq && file_bits;
+    // Further histories and entry points (generator audit 2026-10-02): a path that does not exist yet; a path whose extension names
+    // the OTHER format, and one without extension (the format is the argument, never the file name); the library's own helpers
+    // `T::save(&self, path, fmt)` / `T::open(path, fmt)` (trait SerdeFile) and the free functions `ser::save` / `ser::open`.
+    let other = if ext == "json" { "yaml" } else { "json" };
+    let mut more = serde_json::Map::new();
+    let mut more_ok = true;
+    for (what, p) in [("fresh_path", dir.join(format!("f{}.{}", std::process::id(), ext))),
+                      ("other_extension", dir.join(format!("x{}.{}", std::process::id(), other))),
+                      ("no_extension", dir.join(format!("n{}", std::process::id())))] {
+        let _ = std::fs::remove_file(&p);
+        let r = match fmt.save(v, &p) {
+            Err(e) => json!({"save_err": e.to_string()}),
+            Ok(()) => match fmt.open::<T>(&p) {
+                Ok(back) => json!(back == *v && encode_floats(&serde_json::to_value(&back).unwrap()) == orig
+                                  && std::fs::read(&p).map(|b| b == text.as_bytes()).unwrap_or(false)),
+                Err(e) => json!({"open_err": e.to_string()}),
+            },
+        };
+        let _ = std::fs::remove_file(&p);
+        more_ok &= r == json!(true);
+        more.insert(what.to_string(), r);
+    }
+    for (what, by_trait) in [("trait_SerdeFile", true), ("free_functions", false)] {
+        std::fs::write(&path, format!("{}\n{}\n", text, text)).unwrap();
+        let sv = if by_trait { <T as SerdeFile>::save(v, &path, fmt) } else { layout21utils::ser::save(v, &path, fmt) };
+        let r = match sv {
+            Err(e) => json!({"save_err": e.to_string()}),
+            Ok(()) => {
+                let same_text = std::fs::read(&path).map(|b| b == text.as_bytes()).unwrap_or(false);
+                let op = if by_trait { <T as SerdeFile>::open(&path, fmt) } else { layout21utils::ser::open::<T>(&path, fmt) };
+                match op {
+                    Ok(back) => json!(same_text && back == *v && encode_floats(&serde_json::to_value(&back).unwrap()) == orig),
+                    Err(e) => json!({"open_err": e.to_string()}),
+                }
+            }
+        };
+        more_ok &= r == json!(true);
+        more.insert(what.to_string(), r);
+    }
+    let _ = std::fs::remove_file(&path);
+    let ok = str_eq && str_bits && file_eq && file_bits && more_ok;
     if ok && !want_text {
         json!({"ok": true})
     } else {
-        json!({"ok": ok, "str_eq": str_eq, "str_bits": str_bits, "file_eq": file_eq, "file_bits": file_bits, "text": text})
+        json!({"ok": ok, "str_eq": str_eq, "str_bits": str_bits, "file_eq": file_eq, "file_bits": file_bits, "more": more, "text": text})
     }
 }
 
-fn run_ty<T: Serialize + DeserializeOwned + PartialEq>(val: &Value, want_text: bool) -> Result<(T, Value), Value> {
+/// The converter functions behind gds2json / gds2yaml / markup2gds (layout21converters::gds_serialization), on files:
+/// GDSII file -> to_markup -> markup file (over an existing longer one) -> from_markup -> GDSII file. The bytes must be those of
+/// reading and re-writing the GDSII file without the detour (so the GDSII codec's own behaviour, C01's subject, cancels out).
+/// One entry per format: true / false / null (the library cannot be written or read as GDSII at all: not a case).
+fn markup_files(b0: &[u8]) -> Value {
+    use layout21converters::gds_serialization::{from_markup, to_markup, FromMarkupOptions, ToMarkupOptions};
+    let dir = std::path::Path::new("/verif/work/c18/tmp");
+    std::fs::create_dir_all(dir).unwrap();
+    let pid = std::process::id();
+    let g0 = dir.join(format!("g{}.gds", pid));
+    std::fs::write(&g0, b0).unwrap();
+    let direct = match gds21::GdsLibrary::load(&g0) {
+        Ok(l) => {
+            let mut b: Vec<u8> = Vec::new();
+            if l.write(std::io::Cursor::new(&mut b)).is_ok() { Some(b) } else { None }
+        }
+        Err(_) => None,
+    };
+    let mut out = Vec::new();
+    for (fmt, verbose) in [("json", false), ("yaml", true)] {
+        let direct = match &direct {
+            Some(b) => b,
+            None => {
+                out.push(Value::Null);
+                continue;
+            }
+        };
+        // the markup file's name says nothing about its format
+        let m = dir.join(format!("m{}.{}", pid, if fmt == "json" { "txt" } else { "json" }));
+        let g2 = dir.join(format!("h{}.gds", pid));
+        std::fs::write(&m, "x".repeat(4 * b0.len() + 4096)).unwrap();
+        std::fs::write(&g2, b0.repeat(2)).unwrap();
+        let s = |p: &std::path::PathBuf| p.to_str().unwrap().to_string();
+        let r = catch_unwind(AssertUnwindSafe(|| -> Result<(), String> {
+            to_markup(&ToMarkupOptions { gds: s(&g0), fmt: fmt.to_string(), out: s(&m), verbose }).map_err(|e| e.to_string())?;
+            from_markup(&FromMarkupOptions { gds: s(&g2), fmt: fmt.to_string(), inp: s(&m), verbose }).map_err(|e| e.to_string())
+        }));
+        out.push(match r {
+            Ok(Ok(())) => Value::Bool(std::fs::read(&g2).map(|b| &b == direct).unwrap_or(false)),
+            _ => Value::Bool(false),
+        });
+        let _ = std::fs::remove_file(&m);
+        let _ = std::fs::remove_file(&g2);
+    }
+    let _ = std::fs::remove_file(&g0);
+    Value::Array(out)
+}
+
+fn run_ty<T: Serialize + DeserializeOwned + PartialEq + SerdeFile>(val: &Value, want_text: bool) -> Result<(T, Value), Value> {
     let v: T = match serde_json::from_value(decode_floats(val)) {
         Ok(v) => v,
         Err(e) => return Err(json!({"de_err": e.to_string()})),
@@ -342,6 +431,7 @@ fn run(case: &Value) -> Value {
                 }
                 out["gds_bytes_same"] = Value::Array(same);
                 out["gds_writable"] = Value::Bool(w0);
+                out["gds_files_same"] = if w0 { markup_files(&b0) } else { json!([null, null]) };
                 out
             }
         },
